@@ -508,6 +508,7 @@ def gen_scenario(rng, ops=None, force=None):
         "secondary_backing": {k: rng.choice(["numpy", "dask"]) for k in secondary},
         # labelled secondary rasters are matched by dimension NAME: their own dim order is free
         "secondary_order": {k: rng.choice([None, "yx", "xy"]) for k in secondary} if op != "zonal_mean" else {},
+        "aux_coords": rng.random() < 0.3,
         "pattern": pattern,
     }
     return scn
@@ -536,9 +537,15 @@ def build_cube(scn, perm=None):
     if perm is not None:
         data = data.reshape(T, Y * X)[:, perm].reshape(T, Y, X)
     time, y, x = cube_coords(scn)
-    da = xr.DataArray(
-        data, dims=("time", "y", "x"), coords={"time": time, "y": y, "x": x}, name="band"
-    )
+    coords = {"time": time, "y": y, "x": x}
+    if scn.get("aux_coords"):
+        # non-index coordinates, as real cubes carry them: one along time, one over the pixel grid
+        # (a label of the position, hence NOT permuted with the pixel data in O5), one scalar
+        lat = (y.reshape(-1, 1) + 0.001 * x.reshape(1, -1)).astype("float64")
+        coords["doy"] = ("time", np.asarray(time.dayofyear, dtype="int64"))
+        coords["lat2d"] = (("y", "x"), lat)
+        coords["level"] = 7
+    da = xr.DataArray(data, dims=("time", "y", "x"), coords=coords, name="band")
     da = da.transpose(*scn["layout"]).copy()
     da.attrs["nodata"] = scn["nodata"]
     op, p = scn["op"], scn["params"]
